@@ -1103,6 +1103,237 @@ static void firstuse_run(uint64_t idx)
 }
 VF_SUITE(firstuse, firstuse_count, firstuse_run)
 
+// ---------------------------------------------------------------- suite 7: sequences — several directives in one format
+// Every ordered pair (A, B) of a reduced set of directive shapes (bare and decorated f e g F E G, plus d x s c %% and
+// '*' forms) with at least one floating directive, and seeded 3..4-directive sequences, separated by '|' and literal
+// text.  Whatever the parser keeps between directives (width, precision, "precision given", flags, length modifier,
+// upper-case bit) must not leak from A into B: the segment of every directive must be byte-identical to the rendering
+// of that directive alone (floating directives: judged alone by the ordinary C13 oracles right here; the others: host
+// glibc), and the return value must be the total length.
+struct Piece
+{
+    std::string text;      // directive text
+    std::vector<Arg> args; // its arguments
+    bool is_float;
+    FDir fd;
+    char conv;
+};
+static Piece float_piece(char conv, unsigned flags, int wk, int width, int pk, int prec, bool lmod, double x)
+{
+    Piece p;
+    p.is_float = true;
+    p.fd.conv = conv;
+    p.fd.flags = flags;
+    p.fd.wk = wk;
+    p.fd.width = width;
+    p.fd.pk = pk;
+    p.fd.prec = prec;
+    p.fd.lmod = lmod;
+    p.fd.x = x;
+    fmt_args(p.fd, p.text, p.args);
+    p.conv = conv;
+    return p;
+}
+static Piece other_piece(const char *text, std::vector<Arg> args, char conv)
+{
+    Piece p;
+    p.is_float = false;
+    p.text = text;
+    p.args = args;
+    p.conv = conv;
+    return p;
+}
+enum
+{
+    NSHAPES = 30
+};
+static Piece shape_piece(int k, vf::Rng &r)
+{
+    static const double XS[] = {0.0, 0.5, 1.0, 3.14159265358979, 42.25, 0.000123456, 123456.789, 9.9999999, 1e10, 6.02214e23, 1.5e-7, 2.5, 999999.5, 0.1};
+    double x = XS[r.below(sizeof XS / sizeof XS[0])];
+    if (r.chance(1, 3))
+        x = -x;
+    uint64_t iv = r.chance(1, 2) ? (uint64_t)r.range(-99999, 99999) : (uint64_t)(r.next() >> r.below(40));
+    switch (k)
+    {
+    case 0:
+        return float_piece('f', 0, W_NONE, 0, P_NONE, 0, false, x); // bare
+    case 1:
+        return float_piece('e', 0, W_NONE, 0, P_NONE, 0, false, x);
+    case 2:
+        return float_piece('g', 0, W_NONE, 0, P_NONE, 0, false, x);
+    case 3:
+        return float_piece('F', 0, W_NONE, 0, P_NONE, 0, false, x);
+    case 4:
+        return float_piece('E', 0, W_NONE, 0, P_NONE, 0, false, x);
+    case 5:
+        return float_piece('G', 0, W_NONE, 0, P_NONE, 0, false, x);
+    case 6:
+        return float_piece('e', 0, W_LIT, 12, P_LIT, 3, false, x);
+    case 7:
+        return float_piece('f', F_MINUS, W_LIT, 14, P_LIT, 2, false, x);
+    case 8:
+        return float_piece('f', F_PLUS, W_NONE, 0, P_LIT, 0, false, x);
+    case 9:
+        return float_piece('g', F_HASH, W_NONE, 0, P_NONE, 0, false, x);
+    case 10:
+        return float_piece('f', F_ZERO, W_LIT, 10, P_LIT, 4, false, x);
+    case 11:
+        return float_piece('g', F_SPACE, W_NONE, 0, P_LIT, 5, false, x);
+    case 12:
+        return float_piece('f', 0, W_STAR, 16, P_STAR, 3, false, x);
+    case 13:
+        return float_piece('e', 0, W_STAR, -15, P_NONE, 0, false, x);
+    case 14:
+        return float_piece('f', 0, W_NONE, 0, P_NONE, 0, true, x); // %lf
+    case 15:
+        return float_piece('E', 0, W_NONE, 0, P_LIT, 3, false, x);
+    case 16:
+        return float_piece('G', F_MINUS | F_HASH, W_LIT, 12, P_NONE, 0, false, x);
+    case 17:
+        return float_piece('g', 0, W_NONE, 0, P_STAR, -1, false, x); // negative precision argument: as if omitted
+    case 18:
+        return float_piece('f', 0, W_LIT, 9, P_DOT, 0, false, x);
+    case 19:
+        return other_piece("%d", {Arg::mk_i((uint32_t)iv)}, 'd');
+    case 20:
+        return other_piece("%7d", {Arg::mk_i((uint32_t)iv)}, 'd');
+    case 21:
+        return other_piece("%-#10x", {Arg::mk_i((uint32_t)iv)}, 'x');
+    case 22:
+        return other_piece("%08.3lld", {Arg::mk_i((uint64_t)(int64_t)(int32_t)iv)}, 'd');
+    case 23:
+        return other_piece("%s", {Arg::mk_p("txt")}, 's');
+    case 24:
+        return other_piece("%*s", {Arg::mk_i(9), Arg::mk_p("pad")}, 's');
+    case 25:
+        return other_piece("%-8.2s", {Arg::mk_p("cut")}, 's');
+    case 26:
+        return other_piece("%c", {Arg::mk_i('Z')}, 'c');
+    case 27:
+        return other_piece("%4c", {Arg::mk_i('q')}, 'c');
+    case 28:
+        return other_piece("%%", {}, '%');
+    default:
+        return other_piece("%X", {Arg::mk_i((uint32_t)iv)}, 'x');
+    }
+}
+static const char *piece_class(const Piece &p) { return p.is_float ? "float" : p.conv == '%' ? "pct" : (p.conv == 's' || p.conv == 'c') ? "str" : "int"; }
+
+static void check_sequence(const std::vector<Piece> &seq, vf::Rng &r)
+{
+    if (pf::skip_after_hangs())
+        return;
+    // expected segment of every directive: its rendering alone
+    std::vector<std::string> want(seq.size());
+    for (size_t i = 0; i < seq.size(); i++)
+    {
+        if (seq[i].is_float)
+        {
+            pf::Result alone;
+            check_one(seq[i].fd, "", "", &alone);
+            want[i] = alone.bytes;
+        }
+        else
+            want[i] = pf::run_ref(seq[i].text.c_str(), seq[i].args.data(), (int)seq[i].args.size()).bytes;
+    }
+    static const char *const LEAD[] = {"", "", "x=", "[", "value: "};
+    std::string lead = LEAD[r.below(5)], tail = r.chance(1, 2) ? "" : (r.chance(1, 2) ? "]" : " end\n");
+    std::string fmt = lead, expect = lead;
+    std::vector<Arg> args;
+    for (size_t i = 0; i < seq.size(); i++)
+    {
+        if (i)
+            fmt += "|", expect += "|";
+        fmt += seq[i].text;
+        expect += want[i];
+        args.insert(args.end(), seq[i].args.begin(), seq[i].args.end());
+    }
+    fmt += tail;
+    expect += tail;
+    if ((int)args.size() > pf::MAXARGS)
+        return;
+    std::string cls = std::string("sequence:") + piece_class(seq[seq.size() - 1]) + "-after-" + piece_class(seq[seq.size() - 2]);
+    vf::cls(cls.c_str());
+    if (vf::verbose())
+        printf("  sequence format=\"%s\" args=[%s]\n", vf::esc(fmt.data(), fmt.size(), 200).c_str(), pf::args_text(args.data(), (int)args.size()).c_str());
+    pf::Result got = pf::run_igris(fmt.c_str(), args.data(), (int)args.size());
+    uint64_t h = vf::hash_bytes(fmt.data(), fmt.size());
+    for (const Arg &a : args)
+        h = vf::mix(h, a.k == Arg::I ? a.i : (uint64_t)(a.d * 1e9));
+    vf::count_case(h, true);
+    char key[vf::KEY_LEN];
+    if (got.runaway || got.bytes != expect || got.ret != (int)expect.size())
+    {
+        // which directive is the first whose segment differs, and what came before it
+        size_t off = lead.size(), bad = seq.size();
+        std::vector<std::string> segs;
+        {
+            std::string body = got.bytes.size() >= lead.size() ? got.bytes.substr(lead.size()) : "";
+            size_t a = 0;
+            for (;;)
+            {
+                size_t t = body.find('|', a);
+                segs.push_back(body.substr(a, t == std::string::npos ? std::string::npos : t - a));
+                if (t == std::string::npos)
+                    break;
+                a = t + 1;
+            }
+        }
+        (void)off;
+        for (size_t i = 0; i < seq.size(); i++)
+        {
+            std::string w = want[i] + (i + 1 == seq.size() ? tail : "");
+            if (i >= segs.size() || segs[i] != w)
+            {
+                bad = i;
+                break;
+            }
+        }
+        const char *what = got.runaway ? "runaway-output" : got.bytes != expect ? "segment" : "return";
+        if (bad < seq.size())
+            snprintf(key, sizeof key, "sequence:%s:%%%c-after-%s", what, lower(seq[bad].conv) == '%' ? '%' : seq[bad].conv, bad ? piece_class(seq[bad - 1]) : "start");
+        else
+            snprintf(key, sizeof key, "sequence:%s:whole-format", what);
+        vf::fail_nothrow(key, "format=\"%s\" args=[%s]: igris=\"%s\" (ret %d); every directive alone gives \"%s\" (total %zu); first differing directive #%zu \"%s\"",
+                         vf::esc(fmt.data(), fmt.size(), 160).c_str(), pf::args_text(args.data(), (int)args.size()).c_str(), vf::esc(got.bytes.data(), got.bytes.size(), 200).c_str(),
+                         got.ret, vf::esc(expect.data(), expect.size(), 200).c_str(), expect.size(), bad, bad < seq.size() ? seq[bad].text.c_str() : "?");
+        return;
+    }
+    VF_OK("sequence: every directive's segment == its rendering alone, return == total length");
+    vf::state(vf::hash_bytes(fmt.data(), fmt.size(), 0x5e9));
+}
+static uint64_t seq_count() { return enabled("sequence") ? (uint64_t)NSHAPES * NSHAPES : 0; }
+static void seq_run(uint64_t idx)
+{
+    vf::Rng r(vf::seed(), 0xC13D, idx);
+    int a = (int)(idx / NSHAPES), b = (int)(idx % NSHAPES);
+    int reps = vf::thorough() ? 6 : 2;
+    for (int rep = 0; rep < reps; rep++)
+    {
+        Piece A = shape_piece(a, r), B = shape_piece(b, r);
+        if (A.is_float || B.is_float)
+            check_sequence({A, B}, r);
+        // the pair embedded in a 3..4-directive sequence
+        std::vector<Piece> seq;
+        int n = r.range(3, 4), at = r.range(0, n - 2);
+        for (int i = 0; i < n; i++)
+            seq.push_back(i == at ? A : i == at + 1 ? B : shape_piece((int)r.below(NSHAPES), r));
+        bool any = false;
+        for (const Piece &p : seq)
+            any |= p.is_float;
+        if (any)
+            check_sequence(seq, r);
+    }
+    flush_features();
+    if (vf::want_sample() && idx % 53 == 7)
+    {
+        Piece A = shape_piece(a, r), B = shape_piece(b, r);
+        vf::sample("sequence: \"%s|%s\" and 3..4-directive sequences containing that pair", A.text.c_str(), B.text.c_str());
+    }
+}
+VF_SUITE(sequence, seq_count, seq_run)
+
 // ---------------------------------------------------------------- suite 4: re-entrancy — the output callback formats through the engine
 // (../C06/pf_nest.h) every (outer, inner) pair with at least one floating call; the inner call is injected at every
 // callback invocation of the outer one (padding, sign, digits, exponent); both streams and return values must be unchanged.
@@ -1129,6 +1360,7 @@ extern "C" void vf_setup()
     if (only_suite() && *only_suite())
         return;
     vf::require("re-entrancy: outer and inner stream and return value unchanged by the overlap");
+    vf::require("sequence: every directive's segment == its rendering alone, return == total length");
     vf::require("first use: after any first conversion a fresh process prints exactly what the warm process prints");
     vf::require("large precision (18..5000) directive evaluated");
     vf::require("large precision, exact short decimal value: whole text == host glibc");
